@@ -15,5 +15,5 @@ if ! git -C $wt apply $seed/patch.diff 2>/dev/null; then if ! git -C $wt apply -
 rm $wt/jsonschema/zz_seed_demo_test.go
 (cd $wt && go test -vet=off -count=1 ./... >/dev/null 2>&1); suite=$?
 mkdir -p $wt/_verif; for q in $(${JSCHECK:-/verif/bin/jscheck} -list); do mkdir -p $wt/_verif/$q; cp /verif/known_findings.txt $wt/_verif/$q/; done
-fired=$(for p in $(${JSCHECK:-/verif/bin/jscheck} -list); do echo $p; done | xargs -P 10 -I{} sh -c "${JSCHECK:-/verif/bin/jscheck} -prop {} -tier quick -repo $wt -verif $wt/_verif/{} >$wt/_verif/{}.log 2>&1; [ \$? -eq 1 ] && echo {}:\$(grep -oE '^\s+C[0-9]+/[A-Za-z0-9_.-]+' $wt/_verif/{}.log | sort -u | tr -d ' ' | tr '\n' ',')" | sort | tr '\n' ' ')
+fired=$(${JSCHECK:-/verif/bin/jscheck} -all -repo $wt -verif $wt/_verif 2>&1 | grep '^ALL-FIRED' | sed 's/^ALL-FIRED *//')
 echo "$seed confirm=$nop/$wp/$suite fired=[$fired]"
